@@ -418,8 +418,8 @@ pub fn run(ctx: &RunCtx) -> Outcome {
         (long_k, "ab abx7 ab".to_string(), Recipe::default(), "iterator-state / first searches of a fresh instance (\\K start fix-up)"),
         ("((?:a|b)*)(?!c)".to_string(), big_text, Recipe::default(), "iterator-state / error path (searches ending in StackOverflow, then more searches)"),
         // wholly delegated patterns whose later searches depend on what precedes the search position
-        ("(?m)^\\w".to_string(), "a\nb\nc d\ne".to_string(), Recipe::default(), "iterator-state / delegated pattern with start-of-line context"),
-        ("(?m)^b".to_string(), format!("{}b\n{}b", "aaaaaaaaaaaaaaaaaaaaaaaaaaaaaaaaaaaaaaa\n".repeat(120), "aaaaaaaaaaaaaaaaaaaaaaaaaaaaaaaaaaaaaaa\n".repeat(120)), Recipe::default(), "iterator-state / delegated pattern with start-of-line context"),
+        ("(?m)^\\w".to_string(), "ab\ncd ef\ngh".to_string(), Recipe::default(), "iterator-state / delegated pattern with start-of-line context"),
+        ("(?m)^a".to_string(), "aaaaaaaaaaaa\n".repeat(200), Recipe::default(), "iterator-state / delegated pattern with start-of-line context"),
         ("\\b\\w|^x".to_string(), "ab cd ef".to_string(), Recipe::default(), "iterator-state / delegated pattern with start-of-line context"),
     ];
     for (p, t, rec, mode) in extra {
@@ -507,7 +507,7 @@ pub fn run(ctx: &RunCtx) -> Outcome {
             todo.push(*hots[round % hots.len()]);
         }
         for (pi, ti, mode) in todo {
-            let reps = if hot_world.texts[ti].len() > 100_000 { 3usize } else if mode.contains("delegated pattern") { 400usize } else { 60usize };
+            let reps = if hot_world.texts[ti].len() > 100_000 { 3usize } else if mode.contains("delegated pattern") { 200usize } else { 60usize };
             match hammer_round(&hot_world, &counters, pi, ti, nthreads, reps, round, mode) {
                 Err(what) => {
                     first_fail = Some(stuck(what, json!({"round": round, "threads": nthreads, "mode": mode, "pattern": hot_world.pats[pi], "text": short(&hot_world.texts[ti])})));
